@@ -13,9 +13,11 @@
 //!   merge(a,b) = merge(b,a);  merge(a,merge(b,c)) = merge(merge(a,b),c);  merge(a,a) = a.
 //!
 //! Sub-checks:
-//!   gen_triples   generated worlds (<= 14 ops, 3 replicas, Causal/Eventual mix) x <= 8 triples
-//!   enum_worlds   ALL words of length L over an 18-symbol op alphabet (2 replicas) and, for
-//!                 each world, ALL pairs/triples of its pool (L = 3 quick, 5 thorough)
+//!   gen_triples   generated worlds (<= 16 ops, 3 replicas, Causal/Eventual mix) x <= 8 triples,
+//!                 optionally with one operand replaced by the merge of two pool values
+//!   enum_worlds2  ALL words of length L over an 18-symbol op alphabet (2 replicas) and, for
+//!                 each world, ALL pairs/triples of its pool (L = 4 quick, 5 thorough)
+//!   enum_worlds3  the same with 3 replicas, 30 symbols (L = 3 quick, 4 thorough)
 
 use proptest::prelude::*;
 use redis_sim::redis::SDS;
@@ -315,7 +317,31 @@ fn first_diff(
         .collect()
 }
 
-fn check_comm(a: &ReplicatedValue, b: &ReplicatedValue, ctx: &mut CaseCtx<'_>) -> Result<(), String> {
+/// Counts a tolerated finding once per case (the evidence then says in how many cases a listed
+/// discrepancy was met, not how many comparisons met it).
+#[derive(Default)]
+struct Tol {
+    seen: [bool; 2],
+}
+
+impl Tol {
+    fn tolerate(&mut self, ctx: &mut CaseCtx<'_>, id: &str) -> bool {
+        let i = if id == KF_STAMP { 0 } else { 1 };
+        if self.seen[i] {
+            return true;
+        }
+        let t = ctx.tolerate(id);
+        self.seen[i] = t;
+        t
+    }
+}
+
+fn check_comm(
+    a: &ReplicatedValue,
+    b: &ReplicatedValue,
+    ctx: &mut CaseCtx<'_>,
+    tol: &mut Tol,
+) -> Result<(), String> {
     let ab = a.merge(b);
     let ba = b.merge(a);
     if peer_view(&ab) == peer_view(&ba) {
@@ -323,13 +349,13 @@ fn check_comm(a: &ReplicatedValue, b: &ReplicatedValue, ctx: &mut CaseCtx<'_>) -
     }
     for (name, x, y) in first_diff(&ab, &ba) {
         let tolerated = match name {
-            "timestamp" => kf_stamp_signature(a, b, &ab, &ba) && ctx.tolerate(KF_STAMP),
+            "timestamp" => kf_stamp_signature(a, b, &ab, &ba) && tol.tolerate(ctx, KF_STAMP),
             // type mismatch resolved by "newer outer stamp wins, ties keep self": on a tie of
             // the outer stamps each side keeps its own value
             "crdt" => {
                 kind_of(&a.crdt) != kind_of(&b.crdt)
                     && a.timestamp == b.timestamp
-                    && ctx.tolerate(KF_MISMATCH)
+                    && tol.tolerate(ctx, KF_MISMATCH)
             }
             _ => false,
         };
@@ -364,6 +390,7 @@ fn check_assoc(
     b: &ReplicatedValue,
     c: &ReplicatedValue,
     ctx: &mut CaseCtx<'_>,
+    tol: &mut Tol,
 ) -> Result<(), String> {
     let l = a.merge(&b.merge(c));
     let r = a.merge(b).merge(c);
@@ -375,7 +402,7 @@ fn check_assoc(
         let tolerated = match name {
             // dropping one side of a type mismatch is not a join: which operands survive
             // depends on the grouping
-            "crdt" => !(ka == kb && kb == kc) && ctx.tolerate(KF_MISMATCH),
+            "crdt" => !(ka == kb && kb == kc) && tol.tolerate(ctx, KF_MISMATCH),
             _ => false,
         };
         if !tolerated {
@@ -426,10 +453,22 @@ fn label_pair(a: &Snap, b: &Snap, ctx: &mut CaseCtx<'_>) {
 // ---------------------------------------------------------------------------------------
 
 #[derive(Clone, Debug, Serialize, Deserialize)]
+struct Pick {
+    /// indices into the pool of key "k", mapped monotonically
+    a: u16,
+    b: u16,
+    c: u16,
+    /// a fourth pool value for derived operands
+    m: u16,
+    /// 0..=5 plain; 6: a := pool[a].merge(pool[m]); 7: c := pool[c].merge(pool[m]) — what a
+    /// fresh replica holds after receiving the two values in that order
+    mode: u8,
+}
+
+#[derive(Clone, Debug, Serialize, Deserialize)]
 struct Case {
     world: World,
-    /// indices into the pool of key "k", mapped monotonically
-    picks: Vec<(u16, u16, u16)>,
+    picks: Vec<Pick>,
 }
 
 fn op_strategy() -> impl Strategy<Value = Op> {
@@ -445,16 +484,18 @@ fn op_strategy() -> impl Strategy<Value = Op> {
         3 => (r(), key(), 0u8..4, 0u8..3, 0u8..3, any::<bool>())
             .prop_map(|(r, key, kind, act, arg, stamp)| Op::Crdt { r, key, kind, act, arg, stamp }),
         1 => (r(), key(), 0u8..3).prop_map(|(r, key, rf)| Op::SetRf { r, key, rf }),
-        4 => (r(), r(), key()).prop_map(|(to, from, key)| Op::Sync { to, from, key }),
-        2 => (r(), any::<u16>()).prop_map(|(to, snap)| Op::Deliver { to, snap }),
+        6 => (r(), r(), key()).prop_map(|(to, from, key)| Op::Sync { to, from, key }),
+        3 => (r(), any::<u16>()).prop_map(|(to, snap)| Op::Deliver { to, snap }),
     ]
 }
 
 fn case_strategy() -> impl Strategy<Value = Case> {
+    let pick = (any::<u16>(), any::<u16>(), any::<u16>(), any::<u16>(), 0u8..8)
+        .prop_map(|(a, b, c, m, mode)| Pick { a, b, c, m, mode });
     (
         0u8..8,
-        proptest::collection::vec(op_strategy(), 2..15),
-        proptest::collection::vec((any::<u16>(), any::<u16>(), any::<u16>()), 1..9),
+        proptest::collection::vec(op_strategy(), 2..17),
+        proptest::collection::vec(pick, 1..9),
     )
         .prop_map(|(causal, ops, picks)| Case {
             world: World { causal, ops },
@@ -470,19 +511,39 @@ fn check_case(case: &Case, ctx: &mut CaseCtx<'_>) -> Result<(), String> {
         return Ok(());
     }
     let n = pool.len();
+    let at = |i: u16| pool[(i as usize * n) >> 16];
+    let mut tol = Tol::default();
     let mut nt: Vec<String> = Vec::new();
-    for (i, j, l) in &case.picks {
-        let a = pool[(*i as usize * n) >> 16];
-        let b = pool[(*j as usize * n) >> 16];
-        let c = pool[(*l as usize * n) >> 16];
-        label_pair(a, b, ctx);
-        if a.view != b.view && a.holder != b.holder {
-            nt.push(format!("{}|{}|{}", a.view, b.view, c.view));
+    for p in &case.picks {
+        let (sa, sb, sc, sm) = (at(p.a), at(p.b), at(p.c), at(p.m));
+        let derived_a;
+        let derived_c;
+        let (a, b, c): (&ReplicatedValue, &ReplicatedValue, &ReplicatedValue) = match p.mode {
+            6 => {
+                ctx.label("derived_operand");
+                derived_a = sa.value.merge(&sm.value);
+                (&derived_a, &sb.value, &sc.value)
+            }
+            7 => {
+                ctx.label("derived_operand");
+                derived_c = sc.value.merge(&sm.value);
+                (&sa.value, &sb.value, &derived_c)
+            }
+            _ => (&sa.value, &sb.value, &sc.value),
+        };
+        label_pair(sa, sb, ctx);
+        let (ka, kb, kc) = (kind_of(&a.crdt), kind_of(&b.crdt), kind_of(&c.crdt));
+        if !(ka == kb && kb == kc) {
+            ctx.label("mixed_kinds_triple");
         }
-        check_idem(&a.value)?;
-        check_comm(&a.value, &b.value, ctx)?;
-        check_comm(&b.value, &c.value, ctx)?;
-        check_assoc(&a.value, &b.value, &c.value, ctx)?;
+        if sa.view != sb.view && sa.holder != sb.holder {
+            nt.push(format!("{}|{}|{}", peer_view(a), sb.view, peer_view(c)));
+        }
+        check_idem(a)?;
+        check_comm(a, b, ctx, &mut tol)?;
+        check_comm(b, c, ctx, &mut tol)?;
+        check_comm(a, c, ctx, &mut tol)?;
+        check_assoc(a, b, c, ctx, &mut tol)?;
         ctx.add_evaluations(1);
     }
     if !nt.is_empty() {
@@ -498,21 +559,25 @@ fn check_case(case: &Case, ctx: &mut CaseCtx<'_>) -> Result<(), String> {
 
 #[derive(Clone, Debug, Serialize, Deserialize)]
 struct EnumCase {
-    /// symbols of the alphabet below
+    /// symbols of the alphabet (see `alphabet`)
     word: Vec<u8>,
 }
 
-/// 9 operations x 2 replicas on key "k".
-fn alphabet() -> Vec<Op> {
+/// Operations on key "k" per replica: SET x, SET y PX, DEL, HSET f, HSET g, HDEL f, gossip from
+/// each other replica, GCounter incr (stamped), ORSet add (with_crdt stamp).
+/// 2 replicas: 9 x 2 = 18 symbols; 3 replicas: 10 x 3 = 30 symbols.
+fn alphabet(nrep: u8) -> Vec<Op> {
     let mut v = Vec::new();
-    for r in 0u8..2 {
+    for r in 0u8..nrep {
         v.push(Op::Write { r, key: 0, p: 0, exp: 0 });
         v.push(Op::Write { r, key: 0, p: 1, exp: 1 });
         v.push(Op::Delete { r, key: 0 });
         v.push(Op::HSet { r, key: 0, fields: vec![(0, 0)] });
         v.push(Op::HSet { r, key: 0, fields: vec![(1, 1)] });
         v.push(Op::HDel { r, key: 0, fields: vec![0] });
-        v.push(Op::Sync { to: r, from: 1 - r, key: 0 });
+        for d in 1..nrep {
+            v.push(Op::Sync { to: r, from: (r + d) % nrep, key: 0 });
+        }
         v.push(Op::Crdt { r, key: 0, kind: 0, act: 0, arg: 0, stamp: true });
         v.push(Op::Crdt { r, key: 0, kind: 3, act: 0, arg: 0, stamp: false });
     }
@@ -525,30 +590,24 @@ fn check_enum(case: &EnumCase, alpha: &[Op], ctx: &mut CaseCtx<'_>) -> Result<()
         .iter()
         .map(|s| alpha[*s as usize % alpha.len()].clone())
         .collect();
-    // replica 0 Causal, replica 1 Eventual: vector clocks both present and absent
+    // replica 0 Causal, the others Eventual: vector clocks both present and absent
     let snaps = run_world(&World { causal: 1, ops });
     let pool: Vec<&Snap> = snaps.iter().filter(|s| s.key == 0).collect();
     let n = pool.len();
     let mut nt = false;
-    for a in &pool {
-        check_idem(&a.value).map_err(|e| format!("[a=#{}] {}", idx_of(&pool, a), e))?;
-        for b in &pool {
+    let mut tol = Tol::default();
+    for (ia, a) in pool.iter().enumerate() {
+        check_idem(&a.value).map_err(|e| format!("[a=#{}] {}", ia, e))?;
+        for (ib, b) in pool.iter().enumerate() {
             if a.view != b.view && a.holder != b.holder {
                 nt = true;
             }
             label_pair(a, b, ctx);
-            check_comm(&a.value, &b.value, ctx)
-                .map_err(|e| format!("[a=#{} b=#{}] {}", idx_of(&pool, a), idx_of(&pool, b), e))?;
-            for c in &pool {
-                check_assoc(&a.value, &b.value, &c.value, ctx).map_err(|e| {
-                    format!(
-                        "[a=#{} b=#{} c=#{}] {}",
-                        idx_of(&pool, a),
-                        idx_of(&pool, b),
-                        idx_of(&pool, c),
-                        e
-                    )
-                })?;
+            check_comm(&a.value, &b.value, ctx, &mut tol)
+                .map_err(|e| format!("[a=#{} b=#{}] {}", ia, ib, e))?;
+            for (ic, c) in pool.iter().enumerate() {
+                check_assoc(&a.value, &b.value, &c.value, ctx, &mut tol)
+                    .map_err(|e| format!("[a=#{} b=#{} c=#{}] {}", ia, ib, ic, e))?;
             }
         }
     }
@@ -557,10 +616,6 @@ fn check_enum(case: &EnumCase, alpha: &[Op], ctx: &mut CaseCtx<'_>) -> Result<()
         ctx.nontrivial(&case.word);
     }
     Ok(())
-}
-
-fn idx_of(pool: &[&Snap], s: &Snap) -> usize {
-    pool.iter().position(|p| std::ptr::eq(*p, s)).unwrap_or(usize::MAX)
 }
 
 fn words(len: usize, base: usize) -> impl Iterator<Item = EnumCase> + Send {
@@ -592,10 +647,11 @@ fn main() {
         Level::Exploration,
         "a case is one consistent world: a generated op sequence over 3 replicas (ShardReplicaState, Causal/Eventual mix), 2 keys, \
          3 payloads, 3 hash fields, 3 expiries, G/PN counters and G/OR sets through their mutators, gossip (Sync) and delayed delivery of \
-         earlier snapshots (Deliver); every distinct value a replica held for key 'k' forms the pool and <= 8 triples are drawn from it \
-         (gen_triples), or ALL pairs/triples of the pool for ALL op words of a fixed length over an 18-symbol alphabet (enum_worlds). \
+         earlier snapshots (Deliver); every distinct value a replica held for key 'k' forms the pool and <= 8 triples are drawn from it, \
+         optionally with one operand replaced by the merge of two pool values (gen_triples), or ALL pairs/triples of the pool for ALL op \
+         words of a fixed length over an 18-symbol (2 replicas) / 30-symbol (3 replicas) alphabet (enum_worlds2 / enum_worlds3). \
          non-trivial = some drawn pair differs in the peer view and was held by different replicas; distinct by the operands' peer views \
-         (gen_triples) / by op word (enum_worlds)",
+         (gen_triples) / by op word (enum_worlds*)",
         &args,
     );
     s.assume("values compared through vcore::proj::peer_view (serde image of ReplicatedValue with hash sets/maps canonically ordered)");
@@ -614,7 +670,8 @@ fn main() {
             if pool.len() != 2 {
                 return Some(format!("probe world produced {} values", pool.len()));
             }
-            s.strict_eval(|ctx| check_comm(&pool[0], &pool[1], ctx)).err()
+            s.strict_eval(|ctx| check_comm(&pool[0], &pool[1], ctx, &mut Tol::default()))
+                .err()
         },
     );
     s.probe(
@@ -631,33 +688,40 @@ fn main() {
             if pool.len() != 3 {
                 return Some(format!("probe world produced {} values", pool.len()));
             }
-            s.strict_eval(|ctx| check_assoc(&pool[1], &pool[0], &pool[2], ctx)).err()
+            s.strict_eval(|ctx| {
+                check_assoc(&pool[1], &pool[0], &pool[2], ctx, &mut Tol::default())
+            })
+            .err()
         },
     );
 
     // ---- generated worlds and triples
     s.describe_check(
         "gen_triples",
-        "generated worlds (2..14 ops over 3 replicas) and up to 8 triples of the pool of key 'k': idempotence of a, commutativity of (a,b) and (b,c), associativity of (a,b,c)",
+        "generated worlds (2..16 ops over 3 replicas) and up to 8 triples of the pool of key 'k': idempotence of a, commutativity of (a,b), (b,c), (a,c), associativity of (a,b,c)",
     );
-    s.run_cases("gen_triples", s.scale(30_000, 2_000_000), case_strategy, check_case);
+    s.run_cases("gen_triples", s.scale(200_000, 6_000_000), case_strategy, check_case);
 
-    // ---- exhaustive bounded universe
-    let alpha = alphabet();
-    let len = if s.thorough() { 5 } else { 3 };
-    s.describe_check(
-        "enum_worlds",
-        "every op word of the fixed length over {SET x, SET y PX, DEL, HSET f, HSET g, HDEL f, gossip from the other replica, GCounter incr (stamped), ORSet add (with_crdt stamp)} x {r1 (Causal), r2 (Eventual)}; for each world every value, ordered pair and ordered triple of its pool (pools of all shorter words are sub-pools)",
-    );
+    // ---- exhaustive bounded universes
+    let (len2, len3) = if s.thorough() { (5, 4) } else { (4, 3) };
+    let alpha2 = alphabet(2);
+    let alpha3 = alphabet(3);
+    let rule = "every op word of the fixed length over {SET x, SET y PX, DEL, HSET f, HSET g, HDEL f, gossip from each other replica, GCounter incr (stamped), ORSet add (with_crdt stamp)} x replicas (r1 Causal, others Eventual); for each world every value, ordered pair and ordered triple of its pool (pools of all shorter words are sub-pools)";
+    s.describe_check("enum_worlds2", rule);
+    s.describe_check("enum_worlds3", rule);
     s.note(
         "exhaustive_scope",
         json!(format!(
-            "coverage.exhaustive refers to sub-check enum_worlds only: all {}^{} op words, all triples of each pool",
-            alpha.len(),
-            len
+            "coverage.exhaustive refers to the sub-checks enum_worlds2 (all {}^{} op words, 2 replicas) and enum_worlds3 (all {}^{} op words, 3 replicas), all triples of each world's pool; gen_triples is a generated search",
+            alpha2.len(), len2, alpha3.len(), len3
         )),
     );
-    s.run_enumerated("enum_worlds", words(len, alpha.len()), |c, ctx| check_enum(c, &alpha, ctx));
+    s.run_enumerated("enum_worlds2", words(len2, alpha2.len()), |c, ctx| {
+        check_enum(c, &alpha2, ctx)
+    });
+    s.run_enumerated("enum_worlds3", words(len3, alpha3.len()), |c, ctx| {
+        check_enum(c, &alpha3, ctx)
+    });
     s.set_exhaustive(true);
 
     s.finish();
